@@ -169,7 +169,22 @@ def _structure(stmts: list, emit: Callable[[Optional[ast.expr], ast.AST], list])
                 guard = ast.copy_location(ast.If(test=ast.UnaryOp(op=ast.Not(), operand=ast.Name(id=flag, ctx=ast.Load())), body=rest, orelse=[]), s)
                 out.append(guard)
             return out
-        raise _NoStructure()  # a return inside a nested loop / try / with / match
+        if isinstance(s, ast.Try) and not s.finalbody and not s.orelse:
+            # try: ...; return X  except E: raise/return  ->  the same try with the returns emitted in place; whatever follows
+            # the try in the helper is unreachable when every arm leaves
+            arms_leave = _always_leaves(s.body) and all(_always_leaves(h.body) for h in s.handlers)
+            if arms_leave:
+                new_try = copy.copy(s)
+                new_try.body = _structure(s.body, emit) or [ast.copy_location(ast.Pass(), s)]
+                hs = []
+                for h in s.handlers:
+                    h2 = copy.copy(h)
+                    h2.body = _structure(h.body, emit) or [ast.copy_location(ast.Pass(), s)]
+                    hs.append(h2)
+                new_try.handlers = hs
+                out.append(new_try)
+                return out
+        raise _NoStructure()  # a return inside a nested loop / with / match / try-finally
     return out
 
 
@@ -230,6 +245,15 @@ class Inliner:
             k = self.model.resolve_name(f.module, fn.id)
             if isinstance(k, FuncInfo) and k.cls is None:
                 h = k
+        if h is None and isinstance(fn, ast.Attribute) and _simple(fn.value) and not (isinstance(fn.value, ast.Name) and fn.value.id in ("super",)):
+            # a method of *another* object (self.state.fetch_next(), state.memory.helper()): inlined when the name has exactly
+            # one definition in the package and that definition is wanted (a helper that is not on the confirmed tree)
+            cands = [g for g in self.model.methods_named(fn.attr)]
+            known = getattr(self.model, "known_functions", None)
+            if len(cands) == 1 and not cands[0].is_staticmethod and not cands[0].is_classmethod and cands[0].cls is not None \
+                    and known is not None and ".".join(cands[0].qname.split(".")[-2:]) not in known:
+                h = cands[0]
+                self._other_receiver = True
         if h is None or h is f:
             return None
         if any(d not in ("staticmethod",) for d in h.decorators):
@@ -275,6 +299,9 @@ class Inliner:
         self.counter += 1
         pre = f"_inl{self.counter}_"
         mapping: dict = {h.params[0]: selfname} if has_self else {}
+        recv = call.func.value if isinstance(call.func, ast.Attribute) else None
+        if has_self and recv is not None and not (isinstance(recv, ast.Name) and recv.id == selfname):
+            mapping[h.params[0]] = recv  # x.y.helper(..): the helper's self is x.y
         setup: list = []
         stored = _locals_of(h.node)
         for p in params + kwonly:
